@@ -5,6 +5,7 @@
 From JV Require Import Sem Gen.
 From JV Require Import Hand.Text Hand.Lexopt Hand.Json Hand.Cli.
 From JV Require Import Proofs.TextProofs Proofs.LexoptProofs.
+Require JV.SpecX JV.Proofs.Inner.
 Open Scope Z_scope.
 Ltac Zify.zify_post_hook ::= Z.to_euclidean_division_equations.
 
@@ -1150,14 +1151,10 @@ Definition now_in_range (now : Z) : Prop := -185753453990400 <= now <= 185331720
 
 Lemma unix2jdn_ok now : now_in_range now -> exists j s, unix2jdn now = Ret (Ok (j, s)) /\ in_i32 j.
 Proof.
-  unfold now_in_range. intros H. unfold unix2jdn, SECONDS_IN_DAY, UNIX_EPOCH_JDN.
-  rewrite i64_div_euclid_pos by (unfold in_i64, i64_min, i64_max; lia). cbn [bind].
-  rewrite (to_i64_id 2440588) by (unfold in_i64, i64_min, i64_max; lia).
-  rewrite i64_add_ok by (unfold in_i64, i64_min, i64_max; lia). cbn [bind].
-  rewrite (to_i64_id (-2147483648)), (to_i64_id 2147483647) by (unfold in_i64, i64_min, i64_max; lia).
-  replace ((-2147483648 <=? now / 86400 + 2440588) && (now / 86400 + 2440588 <=? 2147483647)) with true by lia.
-  rewrite i64_rem_euclid_pos by lia. cbn [bind].
-  eexists _, _. split; [reflexivity|]. rewrite to_i32_id; unfold in_i32, i32_min, i32_max; lia.
+  unfold now_in_range. intros H. rewrite JV.Proofs.Inner.unix2jdn_ok by (unfold in_i64, i64_min, i64_max; lia).
+  assert (F : in_i32 (now / 86400 + 2440588)) by (unfold in_i32, i32_min, i32_max; lia).
+  replace (JV.SpecX.in_i32b (now / 86400 + 2440588)) with true by (symmetry; apply JV.Proofs.Inner.in_i32b_iff; exact F).
+  eexists _, _. split; [reflexivity|exact F].
 Qed.
 
 Lemma now_date_total o now : LibTotal -> reachable_cal (o_calendar o) -> now_in_range now -> no_panic (now_date o now).
